@@ -112,7 +112,7 @@ for ci, c in enumerate(cases):
     o['input_path'] = inp
     o['join_path'] = jp
     out.append(o)
-print(json.dumps({'dir': d, 'out': out}))
+print(json.dumps({'dir': d, 'out': out}, default=repr))
 '''
 
 
